@@ -164,7 +164,7 @@ package runtime
 // C01/C03/C13/C14: task state, scopes, registers, evaluators
 
 //@ sweep[C01] * -*Check -InitCtxForCheck -(*Script).Check -(*Task).GetFuncCheck -(*Task).SetCallRef -(*Task).SetPattern -(*Task).GetPattern -(*Stack).SetPattern -(*Stack).GetPattern
-//@ sweep[C08] *Check InitCtxForCheck (*Script).Check (*Task).GetFuncCheck (*Task).SetCallRef
+//@ sweep[C08] *Check
 //@ sweep[C12] (*Task).SetPattern (*Task).GetPattern (*Stack).SetPattern (*Stack).GetPattern
 
 //@ default nonnil *Task
